@@ -391,7 +391,7 @@ func CloneExpression(expr ast.Expression) ast.Expression {
 			keyValues[i].Key = CloneExpression(kv.Key)
 			keyValues[i].Value = CloneExpression(kv.Value)
 		}
-		return ast.NewCompositeLiteral(ClonePosition(e.Pos()), CloneExpression(e.Type), keyValues)
+		expr2 = ast.NewCompositeLiteral(ClonePosition(e.Pos()), CloneExpression(e.Type), keyValues)
 
 	case *ast.Default:
 		expr2 = ast.NewDefault(ClonePosition(e.Position), CloneExpression(e.Expr1), CloneExpression(e.Expr2))
